@@ -269,7 +269,13 @@ func (k Keeper) UpdateDispute(
 			result = types.VoteResult_NO_QUORUM_MAJORITY_INVALID
 		}
 	default:
-		return errors.New("no majority")
+		// no choice has a strict majority (the leading choices tie): the round is decided as invalid,
+		// so that every vote distribution yields a result and the begin-blocker's tally cannot fail
+		if quorum {
+			result = types.VoteResult_INVALID
+		} else {
+			result = types.VoteResult_NO_QUORUM_MAJORITY_INVALID
+		}
 	}
 	vote.VoteResult = result
 	vote.VoteEnd = sdk.UnwrapSDKContext(ctx).BlockTime()
